@@ -17,10 +17,18 @@ type Val struct {
 
 // State is one symbolic state: variable bindings, heap arrays, path condition.
 type State struct {
-	vars map[types.Object]Val
-	heap map[string]string
-	pc   []string
-	dead bool
+	vars  map[types.Object]Val
+	heap  map[string]string
+	pc    []string
+	dead  bool
+	fresh []freshRef // references allocated on this path, with the heap as it was at allocation time
+}
+
+// freshRef: a newly allocated reference cannot occur in any pointer field of the heap that
+// existed when it was allocated.
+type freshRef struct {
+	ref  string
+	snap map[string]string
 }
 
 func (st *State) clone() *State {
@@ -32,6 +40,7 @@ func (st *State) clone() *State {
 		n.heap[k] = v
 	}
 	n.pc = append([]string{}, st.pc...)
+	n.fresh = append([]freshRef{}, st.fresh...)
 	return n
 }
 
@@ -64,6 +73,7 @@ type VC struct {
 	Model   string
 	Output  string
 	MustFail bool // vacuity twin: expected NOT to be provable
+	node     ast.Node
 }
 
 type jumpTarget struct {
@@ -128,6 +138,7 @@ type FnV struct {
 	i2fCache map[string]string
 	i2fList [][2]string
 	ncut int
+	rnd map[string]string
 	intOf map[string]string
 	mathInts bool
 	noPatterns bool
@@ -228,7 +239,7 @@ func (fv *FnV) oblige(st *State, kind, what, goal string, n ast.Node, clause *Cl
 	if k > 0 || strings.HasPrefix(kind, "safe.") {
 		name = fmt.Sprintf("%s[%d]", base, k)
 	}
-	vc := &VC{Name: name, Func: fv.key, Kind: kind, Hyps: append([]string{}, st.pc...), Goal: goal, NDecls: len(fv.decls), fv: fv, Pos: fv.posStr(n)}
+	vc := &VC{Name: name, Func: fv.key, Kind: kind, Hyps: append([]string{}, st.pc...), Goal: goal, NDecls: len(fv.decls), fv: fv, Pos: fv.posStr(n), node: n}
 	if fv.fc != nil {
 		vc.Props = fv.fc.Props
 		vc.Tier = fv.fc.Tier
@@ -285,6 +296,15 @@ func (fv *FnV) merge(states []*State) *State {
 		conds[i] = fv.name("pc", and(s.pc[cp:]), "Bool")
 	}
 	out := &State{vars: map[types.Object]Val{}, heap: map[string]string{}}
+	seenFresh := map[string]bool{}
+	for _, s := range live {
+		for _, fr := range s.fresh {
+			if !seenFresh[fr.ref] {
+				seenFresh[fr.ref] = true
+				out.fresh = append(out.fresh, fr)
+			}
+		}
+	}
 	out.pc = append([]string{}, live[0].pc[:cp]...)
 	out.pc = append(out.pc, or(conds))
 	// variables present in all states
